@@ -81,7 +81,10 @@ func eval(c Case) *pbt.Fail {
 
 // loopy builds inputs aimed at the loops of the parsers.
 func loopy(rt *rapid.T) (string, []byte, string) {
-	switch rapid.IntRange(0, 11).Draw(rt, "loopy") {
+	switch rapid.IntRange(0, 12).Draw(rt, "loopy") {
+	case 12: // SubIFDs arrays of up to 128 directory pointers: forward, backward, beyond the end of the file
+		b, _ := gen.SubIFDsTIFF(rt)
+		return "tiff", b, "tiff-subifds-array"
 	case 11: // XMP with one token (text, attribute value, white-space run, tag name) of 20 KB .. 1 MB, whole or cut
 		n := rapid.SampledFrom([]int{20000, 100000, 300000, 1000000}).Draw(rt, "toklen")
 		fill := rapid.SampledFrom([]string{"v", " ", "<", "&amp;", "\"", "a=\"b\" "}).Draw(rt, "tokfill")
